@@ -386,6 +386,11 @@ def exec_history(case) -> Soft:
             cur_cls = type(aln).__name__
             if kind == "with_gaps_from" and cur_cls != "Alignment":
                 continue  # method of the annotatable class only
+            if kind == "take_positions" and rows and any(c >= len(next(iter(rows.values()))) for c in op["cols"]):
+                # columns were drawn for the history as generated; this class skipped a step
+                # (with_gaps_from) and has fewer columns left
+                s.cls("op-skipped:columns-beyond-current-length")
+                continue
             new_rows, new_mt = m_apply(rows, mt, op)
             what = f"{cur_cls} history {hist + [ _brief(op) ]} from {rows0}"
             tag = f"{cur_cls}/{kind}"
@@ -454,6 +459,13 @@ SUBS = [
 ]
 
 KNOWN_PREDICATES = {}
+
+# thorough tier: coverage-guided campaigns (atheris/libFuzzer mutating the bytes Hypothesis draws from)
+FUZZ = {
+    "subs": ['histories'],
+    "targets": ['cogent3.core.alignment', 'cogent3.core.sequence'],
+    "execs_thorough": 40_000, "jobs_thorough": 4, "execs_quick": 1000, "jobs_quick": 2,
+}
 
 META = {
     "technique": "Hypothesis-generated operation histories applied to both alignment classes and to a dict-of-gapped-strings model; method differential result vs fresh object",
